@@ -540,6 +540,8 @@ class Interp:
                 cont = r.const
             elif r.items is not None and all(i.known for i in r.items):
                 cont = [i.const for i in r.items]
+            elif isinstance(r.tag("kw"), dict) and r.tag("kw_rest") is None and not r.tag("opaque_rest"):
+                cont = list(r.tag("kw").keys())         # membership in a dict with literal keys
             if cont is not None:
                 out.tags["in_set"] = (l, tuple(cont) if not isinstance(cont, str) else cont, pos)
                 if l.known:
@@ -673,9 +675,10 @@ class Interp:
         if len(e.generators) == 1 and not e.generators[0].ifs and not isinstance(e, ast.SetComp):
             g = e.generators[0]
             it = self.ev(g.iter)
-            if it.items is not None and it.tag("kind") in ("tuple", "list") and len(it.items) <= 8:
+            seq = it.tag("zip_items") or (it.items if it.tag("kind") in ("tuple", "list") else None)
+            if seq is not None and len(seq) <= 8:
                 outs = []
-                for item in it.items:
+                for item in seq:
                     self.bind_target(g.target, item, g)
                     outs.append(self.ev(elt))
                 self.fr.env = saved
